@@ -14,6 +14,8 @@
 #include <amgcl/preconditioner/cpr.hpp>
 #include <amgcl/preconditioner/schur_pressure_correction.hpp>
 #undef private
+#include <amgcl/solver/bicgstab.hpp>
+#include <amgcl/deflated_solver.hpp>
 using namespace amgcl;
 
 typedef backend::builtin<double, ptrdiff_t, ptrdiff_t> Backend;
@@ -128,6 +130,109 @@ static int r_cpr(const Witness &w) {
 }
 
 // ------------------------------------------------------------------------------------------------
+// cpr::partial_update with an unchanged matrix (the unit is loop-free: no witness; a fixed matrix with structurally
+// sparse cell-diagonal blocks, three cells, one trailing non-cell row, is used)
+static int r_cpr_partial(const Witness &) {
+    const int B = 2; const size_t n = 7, N = 6;
+    const ptrdiff_t rows[7][4] = { {0, 1, 2, -1}, {1, 4, -1, -1}, {0, 2, 6, -1}, {2, 3, 5, -1}, {1, 4, 5, -1}, {4, 5, -1, -1}, {0, 3, 6, -1} };
+    auto K = std::make_shared<Crs>(); K->set_size(n, n, true);
+    for (size_t i = 0; i < n; ++i) { int c = 0; while (c < 4 && rows[i][c] >= 0) ++c; K->ptr[i + 1] = K->ptr[i] + c; }
+    K->set_nonzeros(K->ptr[n]);
+    for (size_t i = 0; i < n; ++i) for (ptrdiff_t j = K->ptr[i], c = 0; j < K->ptr[i + 1]; ++j, ++c) K->col[j] = rows[i][c];
+    generic_values(*K);
+    print_crs("K", *K);
+    omp_set_dynamic(0); omp_set_num_threads(1);
+    CPR::params prm; prm.block_size = B; prm.active_rows = N;
+    CPR P(K, prm);
+    backend::numa_vector<double> f(n), x1(n), x2(n), x3(n);
+    for (size_t i = 0; i < n; ++i) f[i] = 1.0 + 0.37 * i;
+    P.apply(f, x1);
+    const Crs Fpp0(*P.Fpp);
+    const void *P0 = P.P.get(), *Sc0 = P.Scatter.get(), *S0 = P.S.get(), *F0 = P.Fpp.get();
+    P.partial_update(*K, true);
+    if (P.P.get() != P0 || P.Scatter.get() != Sc0) FAIL("partial_update replaced the pressure preconditioner or Scatter");
+    if (P.S.get() == S0) FAIL("partial_update did not rebuild the global preconditioner S");
+    if (P.Fpp.get() == F0) FAIL("partial_update(update_transfer_ops = true) did not rebuild Fpp");
+    if (P.Fpp->nrows != Fpp0.nrows || P.Fpp->ncols != Fpp0.ncols || P.Fpp->ptr[P.Fpp->nrows] != Fpp0.ptr[Fpp0.nrows]) FAIL("Fpp changed shape after a partial update with the unchanged matrix");
+    for (ptrdiff_t j = 0; j < Fpp0.ptr[Fpp0.nrows]; ++j)
+        if (P.Fpp->col[j] != Fpp0.col[j] || P.Fpp->val[j] != Fpp0.val[j]) FAIL("Fpp entry " << j << " changed after a partial update with the unchanged matrix: " << Fpp0.val[j] << " -> " << P.Fpp->val[j]);
+    P.apply(f, x2);
+    for (size_t i = 0; i < n; ++i) if (x1[i] != x2[i]) FAIL("apply() changed after a partial update with the unchanged matrix: x[" << i << "] " << x1[i] << " -> " << x2[i]);
+    const void *F1 = P.Fpp.get();
+    P.partial_update(*K, false);
+    if (P.Fpp.get() != F1) FAIL("partial_update(update_transfer_ops = false) replaced Fpp");
+    P.apply(f, x3);
+    for (size_t i = 0; i < n; ++i) if (x1[i] != x3[i]) FAIL("apply() changed after partial_update(K, false) with the unchanged matrix");
+    std::cout << "partial update with the unchanged matrix: Fpp, P, Scatter and apply() unchanged" << std::endl;
+    return 0;
+}
+
+// ------------------------------------------------------------------------------------------------
+// deflated_solver: project / apply / operator().  The unit is a call-sequence contract (no numeric witness); the replay
+// evaluates the statement of the property itself on the real class for the witness' number of deflation vectors:
+// after the projection the residual is orthogonal to every deflation vector, the correction is Z^T (Z A Z^T)^-1 Z r0
+// (dense oracle), a second projection changes nothing, and operator() returns the solution of the original system.
+// A is NON-symmetric so that a transposed E is visible.
+static int r_deflated(const Witness &w) {
+    typedef amgcl::deflated_solver<Dummy, solver::bicgstab<Backend> > Solver;
+    const int nvec = std::max(1, (int)w.num("w_nvec", 2)), mode = (int)w.num("w_mode", 0);
+    const size_t n = 8;
+    std::vector<double> Ad(n * n, 0.0);
+    auto A = std::make_shared<Crs>(); A->set_size(n, n, true);
+    for (size_t i = 0; i < n; ++i) A->ptr[i + 1] = A->ptr[i] + (i > 0) + 1 + (i + 1 < n) + (i + 3 < n);
+    A->set_nonzeros(A->ptr[n]);
+    for (size_t i = 0; i < n; ++i) {
+        ptrdiff_t h = A->ptr[i];
+        if (i > 0)     { A->col[h] = i - 1; A->val[h] = -1.0 - 0.1 * i; ++h; }
+        A->col[h] = i; A->val[h] = 5.0 + 0.3 * i; ++h;
+        if (i + 1 < n) { A->col[h] = i + 1; A->val[h] = -0.4 + 0.05 * i; ++h; }
+        if (i + 3 < n) { A->col[h] = i + 3; A->val[h] = 0.7; ++h; }
+    }
+    Ad = dense(*A);
+    std::vector<double> Z(nvec * n);
+    for (int k = 0; k < nvec; ++k) for (size_t i = 0; i < n; ++i) Z[k * n + i] = (k == 0 ? 1.0 : std::cos(0.7 * k * (i + 1))) + 0.01 * i * k;
+    Solver::params prm; prm.nvec = nvec; prm.vec = Z.data(); prm.solver.tol = 1e-12; prm.solver.maxiter = 200;
+    Solver S(A, prm);
+    std::cout << "deflated_solver: n=" << n << " nvec=" << nvec << " mode=" << mode << std::endl;
+    backend::numa_vector<double> b(n), x(n), x0(n);
+    for (size_t i = 0; i < n; ++i) { b[i] = 1.0 + 0.5 * std::sin(1.0 + i); x0[i] = (mode == 1 ? 0.0 : 0.3 * std::cos(2.0 * i)); x[i] = x0[i]; }
+    struct H {
+        static std::vector<double> resid(const std::vector<double> &Ad, size_t n, const backend::numa_vector<double> &b, const backend::numa_vector<double> &x) {
+            std::vector<double> r(n); for (size_t i = 0; i < n; ++i) { double s = b[i]; for (size_t j = 0; j < n; ++j) s -= Ad[i * n + j] * x[j]; r[i] = s; } return r; }
+    };
+    if (mode >= 2) {
+        size_t it; double res;
+        if (mode == 2) std::tie(it, res) = S(b, x); else std::tie(it, res) = S(*A, b, x);
+        std::vector<double> r = H::resid(Ad, n, b, x);
+        double rn = 0, bn = 0; for (size_t i = 0; i < n; ++i) { rn += r[i] * r[i]; bn += b[i] * b[i]; }
+        std::cout << "operator(): iterations=" << it << " reported residual=" << res << " true relative residual=" << std::sqrt(rn / bn) << std::endl;
+        if (!(std::sqrt(rn / bn) < 1e-8)) FAIL("operator() did not return the solution of the original system: true relative residual " << std::sqrt(rn / bn));
+        for (size_t i = 0; i < n; ++i) x[i] = x0[i];      // and the projection on its own, below
+    }
+    // dense oracle for the projected vector: x0' + Z^T d, (Z A Z^T) d = Z (b - A x0'), x0' = x0 (project / operator()) or P b = b (apply, dummy P)
+    backend::numa_vector<double> xs(n); for (size_t i = 0; i < n; ++i) xs[i] = (mode == 1 ? b[i] : x0[i]);
+    std::vector<double> r0 = H::resid(Ad, n, b, xs), M(nvec * nvec), f(nvec), d(nvec);
+    for (int p = 0; p < nvec; ++p) { f[p] = 0; for (size_t i = 0; i < n; ++i) f[p] += Z[p * n + i] * r0[i];
+        for (int q = 0; q < nvec; ++q) { double s = 0; for (size_t i = 0; i < n; ++i) for (size_t j = 0; j < n; ++j) s += Z[p * n + i] * Ad[i * n + j] * Z[q * n + j]; M[p * nvec + q] = s; } }
+    { std::vector<double> T = M, g = f;         // Gaussian elimination with partial pivoting
+      for (int k = 0; k < nvec; ++k) { int pv = k; for (int i = k + 1; i < nvec; ++i) if (std::fabs(T[i * nvec + k]) > std::fabs(T[pv * nvec + k])) pv = i;
+        if (pv != k) { for (int j = 0; j < nvec; ++j) std::swap(T[k * nvec + j], T[pv * nvec + j]); std::swap(g[k], g[pv]); }
+        for (int i = k + 1; i < nvec; ++i) { double l = T[i * nvec + k] / T[k * nvec + k]; for (int j = k; j < nvec; ++j) T[i * nvec + j] -= l * T[k * nvec + j]; g[i] -= l * g[k]; } }
+      for (int i = nvec; i-- > 0;) { double s = g[i]; for (int j = i + 1; j < nvec; ++j) s -= T[i * nvec + j] * d[j]; d[i] = s / T[i * nvec + i]; } }
+    if (mode == 1) S.apply(b, x); else S.project(b, x);
+    for (int pass = 0; pass < 2; ++pass) {
+        std::vector<double> r = H::resid(Ad, n, b, x);
+        for (int p = 0; p < nvec; ++p) { double s = 0, sc = 0; for (size_t i = 0; i < n; ++i) { s += Z[p * n + i] * r[i]; sc += std::fabs(Z[p * n + i] * r[i]); }
+            if (!(std::fabs(s) <= 1e-9 * (1 + sc))) FAIL((pass ? "second projection: " : "") << "the residual after the projection is not orthogonal to deflation vector " << p << ": <Z_p, b - A x> = " << s); }
+        for (size_t i = 0; i < n; ++i) { double e = xs[i]; for (int p = 0; p < nvec; ++p) e += d[p] * Z[p * n + i];
+            if (!(std::fabs(x[i] - e) <= 1e-9 * (1 + std::fabs(e)))) FAIL((pass ? "second projection: " : "") << "x[" << i << "] = " << x[i] << " but x0 + Z^T (Z A Z^T)^-1 Z (b - A x0) has " << e); }
+        if (pass == 0) S.project(b, x);      // projecting a projected vector must change nothing (and exercises the reuse of the scratch vector d)
+    }
+    std::cout << "projection: residual orthogonal to all " << nvec << " deflation vectors, correction equals the dense formula" << std::endl;
+    return 0;
+}
+
+// ------------------------------------------------------------------------------------------------
 // schur_pressure_correction::init: sub-blocks and gather / scatter matrices
 static int r_schur(const Witness &w, bool blocks) {
     if (!(w.has("w_K_nrows") || w.has("w_n")) || !w.has("w_pmask")) { std::cout << "no witness input" << std::endl; return 3; }
@@ -211,6 +316,8 @@ int main(int argc, char **argv) {
     if (!w.load(std::string(argv[2]) + ".in")) { std::cout << "no witness input" << std::endl; return 3; }
     try {
         if (unit == "cpr_first_scalar_pass") return r_cpr(w);
+        if (unit == "cpr_partial_update") return r_cpr_partial(w);
+        if (unit == "deflated_project") return r_deflated(w);
         if (unit == "schur_init_blocks" || unit == "schur_init_counts" || unit == "schur_init_fill_row") return r_schur(w, true);
         if (unit == "schur_init_scatter") return r_schur(w, false);
     } catch (const std::exception &e) {
